@@ -107,6 +107,15 @@ def r_C03eval(root):
         ("Stmt: 'do' Block | Simple; Block: x=..; Simple: Assign | Call; Assign: x=..; Call: x=..;",
          dict(BASE, Stmt=("choice", [("seq", ["'do'", "Block"]), "Simple"]), Block=("common", None), Simple=("choice", ["Assign", "Call"]), Assign=("common", None), Call=("common", None)),
          {"Stmt": ("abstract", ["Block", "Simple"]), "Simple": ("abstract", ["Assign", "Call"])}),
+        ("Wrap: '(' Wrap ')' Tail | Leaf; Tail: x=..; Leaf: x=..;     (a self reference is the first non-match reference of its alternative: the walk stops there)",
+         dict(BASE, Wrap=("choice", [("seq", ["'('", "Wrap", "')'", "Tail"]), "Leaf"]), Tail=("common", None), Leaf=("common", None)),
+         {"Wrap": ("abstract", ["Wrap", "Leaf"]), "Tail": ("common", [])}),
+        ("Stmt: 'do' Block Tail; Block: x=..; Tail: x=..;     (an abstract rule whose body is one sequence: only its first non-match reference is yielded)",
+         dict(BASE, Stmt=("seq", ["'do'", "Block", "Tail"]), Block=("common", None), Tail=("common", None)),
+         {"Stmt": ("abstract", ["Block"])}),
+        ("Pair: Kw First Second | Other; Kw: 'x'|'y'; First: x=..; Second: x=..; Other: x=..;",
+         dict(BASE, Pair=("choice", [("seq", ["Kw", "First", "Second"]), "Other"]), Kw=("matchchoice", ["'x'", "'y'"]), First=("common", None), Second=("common", None), Other=("common", None)),
+         {"Pair": ("abstract", ["First", "Other"])}),
     ]
     W = "TextXVisitor._determine_rule_types"
     for src, spec, want in grammars:
